@@ -422,7 +422,7 @@ func (x *UnsafeAnyBSlice[E]) SetByRangeE(index int, es []E) error {
 		return errors.New("insert index out of range")
 	}
 	total := index + len(es)
-	if total > cap(x.e) {
+	if total > len(x.e) {
 		x.Append(es...)
 		return nil
 	}
